@@ -15,7 +15,16 @@ COLLECTING = {"collect_paths", "next_paths_collect", "collect_by_line"}
 
 
 class _Sink(io.TextIOBase):
+    """Where stdout goes during simulated runs.  `broken = True` makes it the output of a process whose stdout has
+    gone away or sits on a full disk: every write raises ENOSPC (an I/O fault at the print step)."""
+
+    broken = False
+    failed_writes = 0
+
     def write(self, s):
+        if self.broken:
+            _Sink.failed_writes += 1
+            raise OSError(28, "No space left on device (simulated stdout)")
         return len(s)
 
 
